@@ -4,7 +4,8 @@ import json, subprocess, sys, os
 pid = sys.argv[1]
 n = int(sys.argv[2]) if len(sys.argv) > 2 else 3
 p = next(json.loads(l) for l in open('/verif/properties.jsonl') if json.loads(l)['id'] == pid)
-wt = f"/tmp/wt_{pid.lower()}"
+wave = os.environ.get("SEED_WAVE", "")
+wt = f"/tmp/wt_{pid.lower()}{wave}"
 if not os.path.exists(wt):
     subprocess.run(["git", "-C", "/repo", "worktree", "add", "-q", "--detach", wt, "HEAD"], check=True)
 os.makedirs("/tmp/stubs", exist_ok=True)
@@ -34,9 +35,9 @@ Task: produce {n} different, independent changes to the library source (each a s
  (a) still imports/compiles and keeps the existing tests passing as described above,
  (b) BREAKS the property above, and
  (c) needs something specific to manifest - an unusual input or parameter regime, a particular branch (sign pattern, dimension 3 only, an end point exactly on a grid state, an infinite bound), a multi-step sequence of operations, a particular history - NOT something that any ordinary use exposes at once.
-Spread the changes over different functions/classes of the anchored files.
+Spread the changes over different functions/classes of the anchored files; prefer places a first reader would NOT pick (helpers deep in the files, rarely used branches, second-order effects through a collaborator), since the obvious ones have been tried already.
 
-For each change i = 1..{n} write, under /tmp/seed_{pid.lower()}/<i>/ :
+For each change i = 1..{n} write, under /tmp/seed_{pid.lower()}{wave}/<i>/ :
   - patch.diff : `git diff` of that single change against the worktree's HEAD (apply-able with `git apply` / `patch -p1` at the repo root),
   - demo.py : a small standalone program that exits 0 on the unmodified code and exits non-zero (assert failure) with the change applied, demonstrating the violated property on the specific input it needs,
   - meta.json : {{"property": "{pid}", "summary": ..., "needs_to_manifest": ..., "files": [...], "ran": [commands you ran and their outcome]}}.
